@@ -130,3 +130,116 @@ Definition set_chan (s : state) (c : list event) : state :=
 Definition set_bps (s : state) (b : list rule) : state :=
   {| cmds := cmds s; c_pc := c_pc s; p_pc := p_pc s; handle := handle s; token := token s; is_done := is_done s;
      bps := b; chan := chan s; log := log s; undisc := undisc s; out := out s |}.
+
+(* blocking send on the bounded channel: enabled iff there is room *)
+Definition send (cf : config) (s : state) (ev : event) : option state :=
+  if length (chan s) <? cap cf then Some (add_log (set_chan s (chan s ++ [ev])) (ASend ev)) else None.
+
+(* ---- the parsing thread: handle()'s closure and the listener, one control point per step ---- *)
+Definition step_p (cf : config) (s : state) : option state :=
+  match p_pc s with
+  | PNone | PDone => None
+  | PStart es o => Some (set_p s (next_pc es o))
+  | PLoad [] _ => None                                            (* not a control point (next_pc never yields it) *)
+  | PLoad (e :: es) o =>
+      if is_done s then Some (add_log (set_p s (PFinal EvAbort)) AAbort)   (* return true: the VM fails every further rule *)
+      else Some (set_p s (PLock e es o))
+  | PLock e es o =>
+      let b := mem (fst e) (bps s) in
+      Some (add_log (set_p s (if b then PSend e es o else next_pc es o)) (ALook e b))
+  | PSend e es o =>
+      match send cf s (EvBp (fst e) (snd e)) with
+      | Some s' => Some (set_p s' (PPark es o))
+      | None => None
+      end
+  | PPark es o =>
+      if token s || spur cf then Some (add_log (set_token (set_p s (next_pc es o)) false) AWake) else None
+  | PFinal ev =>
+      if fixed cf then
+        (if is_done s then Some (set_p s PStore) else Some (set_p s (PFinalSend ev)))
+      else match send cf s ev with Some s' => Some (set_p s' PStore) | None => None end
+  | PFinalSend ev =>
+      match send cf s ev with Some s' => Some (set_p s' PStore) | None => None end
+  | PStore => Some (set_done (set_p s PExit) true)
+  | PExit => Some (set_p s PDone)
+  end.
+
+(* ---- the controller: run(), cont(), breakpoint edits, recv ---- *)
+Definition pop_cmd (s : state) (cs : list cmd) : state :=
+  {| cmds := cs; c_pc := c_pc s; p_pc := p_pc s; handle := handle s; token := token s; is_done := is_done s;
+     bps := bps s; chan := chan s; log := log s; undisc := undisc s; out := out s |}.
+Definition set_handle (s : state) (b : bool) : state :=
+  {| cmds := cmds s; c_pc := c_pc s; p_pc := p_pc s; handle := b; token := token s; is_done := is_done s;
+     bps := bps s; chan := chan s; log := log s; undisc := undisc s; out := out s |}.
+Definition isnil {A} (l : list A) : bool := match l with [] => true | _ => false end.
+
+Definition spawn (s : state) (es : list entry) (o : outcome) : state :=
+  {| cmds := cmds s; c_pc := CIdle; p_pc := PStart es o; handle := true; token := false; is_done := is_done s;
+     bps := bps s; chan := []; log := []; undisc := false; out := out s |}.
+Definition set_undisc (s : state) (b : bool) : state :=
+  {| cmds := cmds s; c_pc := c_pc s; p_pc := p_pc s; handle := handle s; token := token s; is_done := is_done s;
+     bps := bps s; chan := chan s; log := log s; undisc := b; out := out s |}.
+
+Definition step_c (cf : config) (s : state) : option state :=
+  match c_pc s with
+  | CIdle =>
+      match cmds s with
+      | [] => None
+      | CRun es o :: cs =>
+          let s := pop_cmd s cs in
+          if handle s then Some (set_c (set_handle s false) (RLoad (isnil (chan s)) es o))   (* self.handle.take() *)
+          else Some (set_c s (RReset es o))
+      | CCont :: cs => Some (set_c (pop_cmd s cs) KLoad)
+      | CAdd r :: cs => let s := pop_cmd s cs in Some (set_bps s (if mem r (bps s) then bps s else r :: bps s))
+      | CDel r :: cs => let s := pop_cmd s cs in Some (set_bps s (remove_rule r (bps s)))
+      | CRecv :: cs =>
+          match p_pc s, chan s with
+          | PNone, _ => Some (add_out (pop_cmd s cs) ONoRx)               (* no run yet: there is no receiver *)
+          | _, ev :: ch => Some (add_log (add_out (set_chan (pop_cmd s cs) ch) (ORecv ev)) (ARecv ev))
+          | PDone, [] => Some (add_out (pop_cmd s cs) ODisc)              (* both senders dropped *)
+          | _, [] => None                                                 (* recv blocks *)
+          end
+      end
+  | RLoad d es o => Some (set_c s (if is_done s then RJoin d es o else RStore d es o))
+  | RStore d es o => Some (set_done (set_c s (RUnpark d es o)) true)
+  | RUnpark d es o => Some (add_log (set_token (set_c s (RJoin d es o)) true) AKick)
+  | RJoin d es o => match p_pc s with PDone => Some (set_c s (RReset es o)) | _ => None end
+  | RReset es o => Some (set_done (set_c s (RSpawn es o)) false)
+  | RSpawn es o => Some (spawn s es o)
+  | KLoad =>
+      if is_done s then Some (add_out (set_c s CIdle) OContEof)
+      else if handle s then Some (set_c s KUnpark)
+      else Some (add_out (set_c s CIdle) OContNoRun)
+  | KUnpark =>
+      let disciplined := count is_cont (log s) <? count is_bp_recv (log s) in
+      Some (add_out (add_log (set_undisc (set_token (set_c s CIdle) true) (undisc s || negb disciplined)) ACont) OContOk)
+  end.
+
+Definition step (cf : config) (s : state) (t : tid) : option state :=
+  match t with C => step_c cf s | P => step_p cf s end.
+
+(* A schedule is a list of thread ids; it is an execution iff every step is enabled. *)
+Fixpoint exec (cf : config) (s : state) (sch : list tid) : option state :=
+  match sch with
+  | [] => Some s
+  | t :: sch' => match step cf s t with Some s' => exec cf s' sch' | None => None end
+  end.
+
+Definition reachable (cf : config) (cs : list cmd) (b : list rule) (s : state) : Prop :=
+  exists sch, exec cf (init cs b) sch = Some s.
+
+Definition enabled (cf : config) (s : state) (t : tid) : bool :=
+  match step cf s t with Some _ => true | None => false end.
+
+(* the controller has finished its command list *)
+Definition c_finished (s : state) : bool :=
+  match c_pc s, cmds s with CIdle, [] => true | _, _ => false end.
+
+(* both threads are stuck although the controller still has work: a hang *)
+Definition deadlocked (cf : config) (s : state) : bool :=
+  negb (enabled cf s C) && negb (enabled cf s P) && negb (c_finished s).
+
+(* the three configurations used below; 1 is the capacity main.rs and the test-suite use *)
+Definition literal (k : nat) : config := {| fixed := false; spur := false; cap := k |}.
+Definition repaired (k : nat) : config := {| fixed := true; spur := false; cap := k |}.
+Definition spurious (k : nat) : config := {| fixed := true; spur := true; cap := k |}.
